@@ -11,7 +11,9 @@ P(k) == Dec(k * SCALE, "plain")
 
 AF == FeeInfo("askfee1", Dec(500000, "plain"))     \* 0.5
 BF == FeeInfo("bidfee1", Dec(250000, "plain"))     \* 0.25
-Cfgs == {InstMsg("ats", "base", <<"cv1">>, <<"q1">>, <<"appr1">>, <<"exec1">>, AF, BF, <<>>, <<>>, 0, 1)}
+\* the base denomination is also a supported QUOTE denomination (instantiation allows it): a convertible ask may
+\* then be priced in the very denomination its buyer receives
+Cfgs == {InstMsg("ats", "base", <<"cv1">>, <<"q1", "base">>, <<"appr1">>, <<"exec1">>, AF, BF, <<>>, <<>>, 0, 1)}
 
 Kinds == {"restricted", "coin", "none"}
 Envs == {[marker |-> [d \in {"base", "cv1", "q1"} |-> CASE d = "base" -> kb [] d = "cv1" -> kc [] OTHER -> kq],
@@ -29,10 +31,14 @@ FundsFor(d, amt) == {Coins1(d, amt), NoFunds}
 
 AskReqs ==
   UNION {{RCreateAsk("seller1", f, "a1", b, "q1", P(1), s) : f \in FundsFor(b, s)} : b \in {"base", "cv1"}, s \in Sizes}
+  \cup UNION {{RCreateAsk("seller1", f, "a1", "cv1", "base", P(1), s) : f \in FundsFor("cv1", s)} : s \in Sizes}
 BidReqs(S) ==
   UNION {{RCreateBid("buyer1", f, "b1", "base", BidFeeFor(S.cfg, "q1", Tot(p, s)), p, "q1", Tot(p, s), s)
             : f \in FundsFor("q1", Tot(p, s) + FeeAmt(BidFeeFor(S.cfg, "q1", Tot(p, s))))}
          : p \in {P(1), P(2)}, s \in Sizes}
+  \cup UNION {{RCreateBid("buyer1", f, "b1", "base", BidFeeFor(S.cfg, "base", Tot(P(2), s)), P(2), "base", Tot(P(2), s), s)
+                  : f \in FundsFor("base", Tot(P(2), s) + FeeAmt(BidFeeFor(S.cfg, "base", Tot(P(2), s))))}
+               : s \in Sizes}
 ApproveReqs(S) ==
   IF "a1" \in DOMAIN S.asks
   THEN {RApproveAsk("appr1", f, "a1", "base", S.asks["a1"].size) : f \in FundsFor("base", S.asks["a1"].size)}
